@@ -46,6 +46,18 @@ class HomogeneousTransform(InvertibleParametricTransform, LinearTransform):
         r"""Get shape of transformation parameters tensor."""
         return Size((self.ndim, self.ndim + 1))
 
+    @torch.no_grad()
+    def reset_parameters(self: HomogeneousTransform) -> None:
+        r"""Reset transformation parameters to the identity transformation."""
+        params = self.params
+        if params is None:
+            return
+        if callable(params):
+            params = self.p
+        eye = torch.eye(self.ndim, self.ndim + 1, dtype=params.dtype, device=params.device)
+        params.copy_(eye)
+        self.clear_buffers()
+
     def matrix_(self: HomogeneousTransform, arg: Tensor) -> HomogeneousTransform:
         r"""Set transformation matrix."""
         if not isinstance(arg, Tensor):
